@@ -151,3 +151,86 @@ macro_rules! encode_roundtrip {
 encode_roundtrip!(c03_encode_u8, u8);
 encode_roundtrip!(c03_encode_u16, u16);
 encode_roundtrip!(c03_encode_u32, u32);
+
+/// All three token precedences and all three production precedences symbolic, and the conflicting
+/// token, production and table cell symbolic as well: the decision must use the precedence of
+/// exactly that token and exactly that production and write exactly that cell.
+#[kani::proof]
+#[kani::unwind(5)]
+pub fn c03_resolve_sr_any() {
+    let tp = [any_prec(), any_prec(), any_prec()];
+    let pp = [any_prec(), any_prec(), any_prec()];
+    let prods = vec![
+        vec![
+            Symbol::Rule(RIdx(1u8)),
+            Symbol::Token(TIdx(0)),
+            Symbol::Rule(RIdx(1)),
+        ],
+        vec![Symbol::Token(TIdx(1))],
+        vec![Symbol::Rule(RIdx(1))],
+    ];
+    let g = YaccGrammar::<u8>::verif_from_parts(
+        2,
+        3,
+        prods,
+        vec![RIdx(1u8), RIdx(1), RIdx(0)],
+        vec![tp[0], tp[1], tp[2]],
+        vec![pp[0], pp[1], pp[2]],
+        PIdx(2),
+    );
+    let t: u8 = kani::any();
+    let p: u8 = kani::any();
+    let off: usize = kani::any();
+    kani::assume(t < 3 && p < 3 && off < 4);
+    if let (Some(a), Some(b)) = (tp[t as usize], pp[p as usize]) {
+        kani::assume(a.level != b.level || a.kind == b.kind);
+    }
+    let target: u8 = kani::any();
+    let cst: u8 = kani::any();
+    let before = StateTable::<u8>::verif_encode(Action::Reduce(PIdx(p)));
+    let mut actions = [before; 4];
+    let mut sr = Vec::new();
+    StateTable::<u8>::verif_resolve_shift_reduce(
+        &g,
+        &mut actions,
+        off,
+        TIdx(t),
+        PIdx(p),
+        StIdx(target),
+        &mut sr,
+        StIdx(cst),
+    );
+    let a = StateTable::<u8>::verif_decode(actions[off]);
+    let shift = Action::Shift(StIdx(target));
+    let reduce = Action::Reduce(PIdx(p));
+    match (tp[t as usize], pp[p as usize]) {
+        (None, _) | (_, None) => {
+            assert!(a == shift, "default: shift");
+            assert!(sr.len() == 1 && sr[0] == (TIdx(t), PIdx(p), StIdx(cst)), "default resolution recorded");
+        }
+        (Some(tk), Some(pr)) => {
+            assert!(sr.len() == 0, "precedence-resolved conflicts are not recorded");
+            if tk.level > pr.level {
+                assert!(a == shift, "higher token level: shift");
+            } else if tk.level < pr.level {
+                assert!(a == reduce, "lower token level: reduce");
+            } else {
+                match tk.kind {
+                    AssocKind::Left => assert!(a == reduce, "left: reduce"),
+                    AssocKind::Right => assert!(a == shift, "right: shift"),
+                    AssocKind::Nonassoc => assert!(a == Action::Error, "nonassoc: error"),
+                }
+            }
+        }
+    }
+    let mut i = 0;
+    while i < 4 {
+        if i != off {
+            assert!(actions[i] == before, "other cells untouched");
+        }
+        i += 1;
+    }
+    kani::cover!(t == 2 && p == 1 && a == Action::Error, "nonassoc on the last token and second production");
+    std::mem::forget(g);
+    std::mem::forget(sr);
+}
